@@ -149,7 +149,7 @@ Proof.
                  | None => None
                  end
                else None) = Some (t, g')).
-  { destruct o; try exact H. destruct l as [[b|x|m]| | |]; try exact H. discriminate G. }
+  { destruct o; try exact H. destruct l as [[b|x|m]| |ol l1 l2|]; try exact H; [discriminate G|]. destruct ol; try exact H. discriminate G. }
   clear H. destruct (is_valop o); try discriminate H'. split; [reflexivity|].
   destruct (ty_expr g l) as [[tl g1]|] eqn:E1; try discriminate H'.
   destruct (ty_expr g1 r) as [[tr g2]|] eqn:E2; try discriminate H'.
@@ -225,7 +225,7 @@ Lemma targets_bind x v : targets (Sexp OBind (Atom (PName x)) v) = x :: targets 
 Proof. reflexivity. Qed.
 
 Lemma targets_op o l r : generic o l = true -> targets (Sexp o l r) = targets l ++ targets r.
-Proof. intros G. destruct o; try reflexivity. destruct l as [[b|x|m]| | |]; try reflexivity. discriminate G. Qed.
+Proof. intros G. destruct o; try reflexivity. destruct l as [[b|x|m]| |ol l1 l2|]; try reflexivity; try discriminate G. all: try (destruct ol; try reflexivity; discriminate G). Qed.
 
 Lemma targets_condop o c v : is_condop o = true -> targets (Sexp o c v) = targets c ++ targets v.
 Proof. intros Co. destruct o; try discriminate Co; reflexivity. Qed.
@@ -321,6 +321,53 @@ Proof.
   inversion H; subst. eauto.
 Qed.
 
+(* a bind whose target is a name or, again, such a bind: what it leaves as its result is a register a
+   further bind can store into *)
+Fixpoint chain (e : expr) : Prop :=
+  match e with
+  | Atom (PName _) => True
+  | Sexp OBind a _ => chain a
+  | _ => False
+  end.
+
+Lemma bind_target_chain e : forall x, bind_target e = Some x -> chain e.
+Proof.
+  induction e as [p|c|o l IHl r IHr|]; intros x H; try discriminate H.
+  destruct o; try discriminate H. destruct l as [[b|y|m]| |ol l1 l2|]; try discriminate H; [exact I|].
+  destruct ol; try discriminate H. cbn [chain]. cbn [bind_target] in H. eapply IHl. exact H.
+Qed.
+
+Lemma chain_not_tmp e : forall g sc is r sc', chain e -> J g sc -> enames nd e ->
+  compile_expr e sc = Ok (is, r, sc') -> is_tmp_reg r = false.
+Proof.
+  induction e as [p|c|o l IHl r0 IHr|]; intros g sc is r sc' Hc HJ Hn H; try destruct Hc.
+  - destruct p as [b|x|n]; try destruct Hc. cbn [enames] in Hn.
+    apply compile_atom_name in H. destruct H as (_ & _ & _ & _ & [(G0 & _)|(_ & _ & Hs & _)]).
+    + destruct HJ as [J1 J2]. destruct (tget g x) as [[tx kx]|] eqn:Eg.
+      * destruct (J1 _ _ _ Eg) as (r1 & G1 & _ & K & _). rewrite G0 in G1. inversion G1; subst r1.
+        destruct kx, r; try contradiction; reflexivity.
+      * destruct (J2 _ Hn Eg) as [A|(i & A & _)]; [congruence|]. rewrite G0 in A. inversion A; subst. reflexivity.
+    + destruct r; try discriminate Hs; reflexivity.
+  - destruct o; try destruct Hc. cbn [chain] in Hc. cbn [enames] in Hn. destruct Hn as [Hnl _].
+    apply compile_sexp_inv in H. destruct H as (is1 & lft & sc1 & is2 & rgt & sc2 & H1 & H2 & H3).
+    pose proof (IHl _ _ _ _ _ Hc HJ Hnl H1) as Hl.
+    apply lower_tail_bind in H3. destruct H3 as (lft' & [(s & _ & Hu)|(_ & -> & _)] & -> & _).
+    + eapply update_type_not_tmp; eauto.
+    + exact Hl.
+Qed.
+
+Lemma slot_assignable r : (match slot r with Some _ => True | None => False end) -> is_tmp_reg r = false -> assignable r.
+Proof. destruct r; cbn; intros H1 H2; try contradiction; try discriminate; exact I. Qed.
+
+Lemma bind_result_assignable a b g sc is r sc' : chain (Sexp OBind a b) -> J g sc -> enames nd (Sexp OBind a b) ->
+  compile_expr (Sexp OBind a b) sc = Ok (is, r, sc') -> assignable r.
+Proof.
+  intros Hc HJ Hn H. pose proof (chain_not_tmp _ _ _ _ _ _ Hc HJ Hn H) as Hnt.
+  apply compile_sexp_inv in H. destruct H as (is1 & lft & sc1 & is2 & rgt & sc2 & _ & _ & H3).
+  apply lower_tail_bind in H3. destruct H3 as (lft' & _ & -> & [(_ & (i & t & v & [-> | ->]) & _)|(_ & Hs)]); try exact I.
+  apply slot_assignable; assumption.
+Qed.
+
 (* ---------- expressions ---------- *)
 
 Ltac splits := repeat match goal with |- _ /\ _ => split end.
@@ -387,7 +434,7 @@ Section Accept.
       vty_of (reg_type r) = Some t /\ enc_ok sc' r /\ Forall (ienc sc') is /\
       sext (sc_named sc) (sc_named sc').
   Proof.
-    induction e as [p|c| |x o c v Co IHc IHv|x v Pl IHv|o l r0 G IHl IHr] using expr_shape_ind;
+    induction e as [p|c| |x o c v Co IHc IHv|x v Pl IHv|u1 u2 v IHt IHv|o l r0 G IHl IHr] using expr_shape_ind;
       intros g t g' sc Ht Hn HT HJ HC.
     - destruct p as [b|x|n].
       + cbn in Ht. inversion Ht; subst. exists [], (ImmBool b), sc.
@@ -498,6 +545,34 @@ Section Accept.
         * apply Forall_app. split; [eapply Forall_ienc_mono; [exact Hc23|exact F2]|]. constructor; [|constructor].
           repeat split; cbn [i_res i_left i_right i_op]; try discriminate; auto. eapply enc_ok_mono; [exact Hc23|exact E2].
         * eapply sext_trans; [exact Sl|]. eapply sext_trans; [exact S2|]. eapply update_type_ext; exact Hu.
+    - (* a bind whose target is itself a bind *)
+      pose proof Ht as Ht0. apply ty_nest_inv in Ht. destruct Ht as (Pl & g1 & H1 & H2).
+      pose proof Hn as Hn0. cbn [enames] in Hn. destruct Hn as (Hnt & Hnv).
+      change (targets (Sexp OBind (Sexp OBind u1 u2) v)) with (targets (Sexp OBind u1 u2) ++ targets v) in HT.
+      destruct (IHt g t g1 sc H1 Hnt) as (is1 & lft & sc1 & C1 & J1 & HC1 & L1 & T1 & V1 & E1 & F1 & S1); auto.
+      { intros y Hy. apply HT. apply in_or_app. left. exact Hy. }
+      destruct (IHv g1 t g' sc1 H2 Hnv) as (is2 & rgt & sc2 & C2 & J2 & HC2 & L2 & T2 & V2 & E2 & F2 & S2); auto.
+      { intros y Hy. destruct (HT y) as [A|A]; [apply in_or_app; right; exact Hy|left; exact A|].
+        right. rewrite (ty_expr_mono _ _ _ _ H1 y A). exact A. }
+      pose proof (enc_ok_not_none _ _ E2) as Hrn.
+      assert (Hasg : assignable lft).
+      { destruct (typed_bind_target _ _ _ _ H1 _ _ eq_refl) as (x & Hbt & _).
+        eapply (bind_result_assignable u1 u2 g sc); eauto. eapply bind_target_chain; exact Hbt. }
+      exists ((is1 ++ is2) ++ [mkInstr lft OBind lft rgt]), lft, sc2. splits.
+      + rewrite compile_sexp, C1. cbn [bind]. rewrite C2. cbn [bind].
+        apply lower_tail_bind_ok; [eapply vty_not_tname; exact V1|exact Hrn|exact Hasg].
+      + exact J2.
+      + exact HC2.
+      + eauto using cle_trans.
+      + cbn [valops is_valop is_arith is_cmp is_logic orb] in *. lia.
+      + exact V1.
+      + eapply enc_ok_mono; [exact L2|exact E1].
+      + apply Forall_app. split; [apply Forall_app; split|].
+        * eapply Forall_ienc_mono; [exact L2|exact F1].
+        * exact F2.
+        * constructor; [|constructor].
+          repeat split; cbn [i_res i_left i_right i_op]; try discriminate; auto; eapply enc_ok_mono; try exact L2; exact E1.
+      + eapply sext_trans; [exact S1|exact S2].
     - (* an arithmetic, comparison or logical operator *)
       apply ty_op_full in Ht; auto. destruct Ht as (Vo & tl & g1 & tr & H1 & H2 & Hty).
       cbn [enames] in Hn. destruct Hn as (Hnl & Hnr).
@@ -611,12 +686,13 @@ Qed.
 
 Lemma typed_desugar e : forall g t g', ty_expr g e = Some (t, g') -> desugar e = e.
 Proof.
-  induction e as [p|c| |x o c v Co IHc IHv|x v Pl IHv|o l r G IHl IHr] using expr_shape_ind; intros g t g' H.
+  induction e as [p|c| |x o c v Co IHc IHv|x v Pl IHv|u1 u2 v IHt IHv|o l r G IHl IHr] using expr_shape_ind; intros g t g' H.
   - reflexivity.
   - discriminate H.
   - discriminate H.
   - apply ty_cond_full in H; auto. destruct H as (tc & g1 & H1 & H2 & _). cbn [desugar]. rewrite (IHc _ _ _ H1), (IHv _ _ _ H2). reflexivity.
   - apply ty_bind_full in H; auto. destruct H as (g1 & H1 & _). cbn [desugar]. rewrite (IHv _ _ _ H1). reflexivity.
+  - apply ty_nest_inv in H. destruct H as (_ & g1 & H1 & H2). change (desugar (Sexp OBind (Sexp OBind u1 u2) v)) with (Sexp OBind (desugar (Sexp OBind u1 u2)) (desugar v)). rewrite (IHt _ _ _ H1), (IHv _ _ _ H2). reflexivity.
   - apply ty_op_full in H; auto. destruct H as (_ & tl & g1 & tr & H1 & H2 & _). cbn [desugar]. rewrite (IHl _ _ _ H1), (IHr _ _ _ H2). reflexivity.
 Qed.
 
